@@ -1,6 +1,7 @@
 package regexanalysis
 
 import (
+	"errors"
 	"fmt"
 	"math"
 	"math/bits"
@@ -68,9 +69,16 @@ func ConstantSuffix(regexString string) ([]byte, error) {
 			return nil, nil
 		}
 	}
+	// every path through the expression is walked on its own, their number doubles with every
+	// alternative or optional part: give up (no suffix is always correct) when there are too many
+	errTooManyPaths := errors.New("too many paths")
+	steps := 0
 	evaluate := (func(s *[]byte, pos uint32, seen []uint32) error)(nil)
 	evaluate = func(s *[]byte, pos uint32, seen []uint32) error {
 		for {
+			if steps++; steps > 100000 {
+				return errTooManyPaths
+			}
 			i := p.Inst[pos]
 			switch i.Op {
 			case syntax.InstRune1, syntax.InstRune, syntax.InstRuneAny, syntax.InstRuneAnyNotNL:
@@ -119,7 +127,13 @@ func ConstantSuffix(regexString string) ([]byte, error) {
 		}
 	}
 	s := []byte(nil)
-	return s, evaluate(&s, uint32(p.Start), nil)
+	if err := evaluate(&s, uint32(p.Start), nil); err != nil {
+		if err == errTooManyPaths {
+			return nil, nil
+		}
+		return nil, err
+	}
+	return s, nil
 }
 
 func AcceptedLength(regexString string) (AcceptedLengths, error) {
